@@ -210,12 +210,16 @@ def gen_cases(seed, chunk, n, tier):
         # every array produced along the program, raw, for the validity monitor
         produced = []
         for st in steps:
+            stale_src = env.get(st["in"][0]) if st["in"] else None
             for nm in st["out"]:
                 v = env.get(nm)
                 if isinstance(v, sr.AbelianArray):
                     trig = []
                     if st["op"] == "solve" and fermi and env[st["in"][0]].parity:
                         trig.append("odd_matrix")
+                    if st["op"] == "squeeze" and fermi and any(
+                            s_ not in stale_src.blocks for s_ in stale_src.phases):
+                        trig.append("stale_phase_key")
                     produced.append((nm, st["op"], ser.enc_array(v, data=False), oracle.py_valid(v),
                                      len(v.blocks), trig))
         meta = dict(sym=sym, fermi=fermi, static=static, nsteps=len(steps), floaty=floaty)
@@ -249,6 +253,21 @@ def special_cases():
     try:
         xx = sr.linalg.solve(a, b)
         out.append(("solve", {"odd_matrix"}, xx, "solve(a, b) with an odd-parity matrix a"))
+    except Exception:  # noqa
+        pass
+    # a pending sign on a block that multiply_diagonal drops, then sync_charges and squeeze:
+    # the sign table ends up naming a sector that does not conserve the charge
+    A = sr.BlockIndex({0: 1, 1: 1})
+    B = sr.BlockIndex({0: 1, 1: 1}, dual=True)
+    C = sr.BlockIndex({0: 1, -1: 1})
+    xs = sr.U1FermionicArray(indices=(A, B, C), charge=0,
+                             blocks={(0, 0, 0): np.array([[[1.]]]), (1, 0, -1): np.array([[[2.]]]),
+                                     (1, 1, 0): np.array([[[3.]]])})
+    try:
+        w = xs.phase_sector((1, 1, 0)).multiply_diagonal(sr.BlockVector({0: np.array([2.])}), 1) \
+              .sync_charges().squeeze(1)
+        out.append(("squeeze", {"stale_phase_key"}, w,
+                    "squeeze after multiply_diagonal dropped a block that carried a pending sign"))
     except Exception:  # noqa
         pass
     return out
